@@ -217,6 +217,18 @@ class Ctx:
                     old.unlink()
                 except FileNotFoundError:
                     pass
+            cap = 300
+            if len(unlisted) > cap:
+                # keep the report readable: every rule keeps its first instances; the rest are counted
+                per_rule: dict = {}
+                kept = []
+                for f in unlisted:
+                    k = per_rule.get(f.rule, 0)
+                    if k < max(20, cap // max(1, len({x.rule for x in unlisted}))):
+                        kept.append(f)
+                    per_rule[f.rule] = k + 1
+                print(f"  ({len(unlisted)} violations; listing {len(kept)}: " + ", ".join(f"{r} x{c}" for r, c in sorted(per_rule.items())) + ")")
+                unlisted = kept
             for n, f in enumerate(unlisted):
                 p = d / f"{n}.json"
                 rec = f.as_dict()
